@@ -203,9 +203,13 @@ func (a *curAnalysis) need(fd *core.FuncDecl, at ast.Node, e ast.Expr, why strin
 			return false
 		}
 		ch := false
+		repaired := a.repairedBefore(fd, v, at)
 		for _, d := range defs {
 			if d.Pos >= at.Pos() || d.RHS == nil {
 				continue
+			}
+			if repaired.IsValid() && d.Pos < repaired {
+				continue // whatever it held, it was checked and, where unknown, replaced before this point
 			}
 			if _, isRange := d.Stmt.(*ast.RangeStmt); isRange {
 				a.finding(fd, at, e, why, "code comes from a range element")
@@ -544,4 +548,66 @@ func insideLoopWith(body ast.Node, a, b ast.Node) bool {
 		return true
 	})
 	return found
+}
+
+
+// repairedBefore recognises the check-or-replace idiom for a local code v:
+//
+//	if v == "" || v.Def() == nil { …; v = <new value>; … }      (no else)
+//
+// placed, in an enclosing block, before `at`. After it v is either the value
+// that passed the test or the value assigned in the branch — so definitions
+// before the statement need no justification; the one inside does (it is
+// judged like any other definition). It returns the position of the statement.
+func (a *curAnalysis) repairedBefore(fd *core.FuncDecl, v *types.Var, at ast.Node) token.Pos {
+	info := fd.Pkg.TypesInfo
+	var pos token.Pos
+	ast.Inspect(fd.Decl.Body, func(n ast.Node) bool {
+		is, ok := n.(*ast.IfStmt)
+		if !ok || is.Else != nil || is.End() > at.Pos() {
+			return true
+		}
+		// the condition's falsity must imply v.Def() != nil
+		leaves := map[ast.Expr]bool{}
+		core.DeriveCond(is.Cond, false, leaves)
+		checked := false
+		for l, val := range leaves {
+			g := core.GuardOf(info, l, nil)
+			if g.Kind != "nil" || g.Call == nil || val != false || g.Neg {
+				continue
+			}
+			if fn := core.Callee(info, g.Call); fn != nil && fn.Name() == "Def" && core.VarOf(info, core.RecvExpr(g.Call)) == v {
+				checked = true
+			}
+		}
+		if !checked {
+			return true
+		}
+		// every way through the branch re-assigns v at its top level, or leaves the function
+		assigned := false
+		for _, s := range is.Body.List {
+			switch x := s.(type) {
+			case *ast.AssignStmt:
+				for _, l := range x.Lhs {
+					if core.VarOf(info, l) == v {
+						assigned = true
+					}
+				}
+			}
+		}
+		if n := len(is.Body.List); n > 0 {
+			if _, isRet := is.Body.List[n-1].(*ast.ReturnStmt); isRet {
+				assigned = true
+			}
+		}
+		if assigned && is.Pos() > pos {
+			// must be in a block that encloses `at` (same or outer nesting): its end precedes at and
+			// the enclosing block of the if contains at
+			if blk := innermostBlock(fd.Decl.Body, is); blk != nil && blk.Pos() <= at.Pos() && at.End() <= blk.End() {
+				pos = is.Pos()
+			}
+		}
+		return true
+	})
+	return pos
 }
